@@ -9,7 +9,9 @@ EXPLANATION = ('Decides the necessary structural clauses of C08: (R8a) every per
                'security whose values are transactions, deltas, delta results, render tables or gains) can only be left through '
                'exhaustion — no return / ? / break on a single security\'s outcome; (R8b) the per-security bookkeeping entry point '
                'receives only that security\'s rows and opening position and takes no &mut state; (R8c) no product code writes '
-               'process-global state other than the reviewed idempotent tables. Not decided: numeric independence of the tables.')
+               'process-global state other than the reviewed idempotent tables; (R8d) inside a per-security loop no container of per-security '
+               'results is read back and no variable assigned from the current security\'s data is consulted by a later iteration. '
+               'Not decided: numeric independence of the tables.')
 TRUSTED_BASE = ['rustc nightly MIR construction and trait resolution']
 ASSUMPTIONS = []
 
@@ -81,6 +83,9 @@ def run(prog, rep, tier='quick', config='default'):
                 rep.reviewed('R8a', k, where=nc.where(), fn=fn.name, detail=detail + ' — reviewed: ' + reviewed[full]['reason'])
             else:
                 rep.violation('R8a', k, where=nc.where(), fn=fn.name, detail=detail)
+
+    # ------------------------------------------------------------------ R8d: nothing data-dependent is carried from one security to the next
+    r8d(prog, rep, loops)
 
     # ------------------------------------------------------------------ R8b
     entry = prog.fn('portfolio::bookkeeping::delta_list::txs_to_delta_list')
@@ -158,3 +163,87 @@ def run(prog, rep, tier='quick', config='default'):
                                   detail='product function calls test-support item %s' % name)
     rep.extra['per_security_loops'] = ['%s @%s' % (l[0].name, l[1].where()) for l in loops]
     rep.extra['global_mutable_statics'] = n_glob
+
+
+READS = {'get', 'values', 'keys', 'iter', 'len', 'is_empty', 'contains_key', 'contains', 'any', 'all', 'first', 'last', 'index',
+         'get_key_value', 'values_mut', 'iter_mut', 'get_mut', 'into_iter', 'find', 'position', 'count', 'binary_search', 'max', 'min'}
+MUTS = {'insert', 'push', 'extend', 'append', 'push_str', 'remove', 'clear', 'entry', 'retain', 'drain', 'truncate', 'pop',
+        'push_back', 'push_front', 'extend_from_slice'}
+CONTAINER = re.compile(r'std::collections::|std::vec::Vec<|std::string::String|VecDeque<')
+
+
+def r8d(prog, rep, loops):
+    """Within a per-security loop, a variable that outlives an iteration must not both be written with data of the current security
+    and be consulted in a later iteration: (a) a container filled in the loop (the result map, the list of all deltas) is only
+    written there, never read, except under the current security's own key; (b) a scalar / Option variable assigned a value
+    computed in the loop is not read in the loop (a flag set by one security's outcome that makes later ones skip; a status
+    handed from one security to the next).  Integer accumulation and constant stores (a `first` flag) are position effects, not
+    data of another security, and are allowed."""
+    from props import c09
+    an = c09.Analysis(prog, rep, {})
+    ordn = {}
+    for (fn, nc, header, body, why) in loops:
+        names = sorted({short(c.decl) for c in fn.calls if c.bb in body and c is not nc and not is_tracing_call(c) and
+                        not re.match(r'(std|core|alloc)::', c.decl) and not re.match(r'<?(std|core|alloc)::', c.callee)})
+        label = 'loop[%s]' % ','.join(names[:3]) if names else 'loop[]'
+        ordn[(fn.name, label)] = ordn.get((fn.name, label), 0) + 1
+        if ordn[(fn.name, label)] > 1:
+            label += '#%d' % ordn[(fn.name, label)]
+        base = '%s|%s|no-state-carried-between-securities' % (fn.name, label)
+        elem = an._aliases(fn, {nc.dst['l']}, within=body)
+        iter_roots = an._aliases(fn, {nc.arg_local(0)}) if nc.arg_local(0) is not None else set()
+        outer = [l for l in fn.ty if l != 0 and (l in fn.user or fn.is_param(l)) and l not in iter_roots and
+                 (fn.is_param(l) or any(bb not in body for (bb, _, _, _) in fn.defs.get(l, [])))]
+        bad = None
+        n_state = 0
+        for l in outer:
+            ty = fn.ty.get(l, '')
+            if c09.htyped(fn, l):
+                continue
+            al = an._aliases(fn, {l}, within=body)
+            uses = [c for c in fn.calls if c.bb in body and not is_tracing_call(c) and any(a in al for a in c.arg_locals())]
+            if CONTAINER.search(ty.lstrip('&mut ').lstrip('&')):
+                # only containers of per-security results: a map from security to rows/deltas/results/tables/gains, or a list of
+                # rows/deltas.  Maps keyed by something else (year totals, warning kinds) are cross-security aggregates by design.
+                if not (SECMAP.search(ty) or re.search(r'std::vec::Vec<(portfolio::model::tx::Tx|portfolio::model::txdelta::TxDelta)\b', ty)):
+                    continue
+                muts = [c for c in uses if c.short in MUTS and c.arg_local(0) in al]
+                if not muts:
+                    continue
+                n_state += 1
+                for c in uses:
+                    if c.dst_local() is not None and c09.only_feeds_tracing(fn, c.dst_local()):
+                        continue
+                    if c.short in READS and c.arg_local(0) in al and not (c.short in ('get', 'get_mut', 'contains_key', 'remove', 'entry') and
+                                                                          an.key_provenance(fn, c, body, elem, nc)[0] == 'ok'):
+                        bad = bad or (c.where(), '%s is filled in this loop and also read in it (%s): what an earlier security put there can '
+                                      'influence a later one' % (fn.describe_local(l).split(':')[0], c.short))
+                continue
+            stores = [(bb, node, kind) for (bb, idx, kind, node) in fn.defs.get(l, []) if bb in body and not node['dst']['p']]
+            data_stores = []
+            for (bb, node, kind) in stores:
+                if kind == 'stmt':
+                    r = node['r']
+                    if r['rv'] == 'use' and r['ops'][0]['k'] == 'const':
+                        continue
+                    if r['rv'] == 'agg' and not any(is_place(o) for o in r['ops']):
+                        continue
+                    if c09.INTTY.search(ty) and an.int_accumulate(fn, node, body)[0]:
+                        continue
+                    if r['rv'] == 'binop' and ty.startswith('(') and 'bool)' in ty:
+                        continue
+                data_stores.append((bb, node))
+            if not data_stores:
+                continue
+            n_state += 1
+            reads = [(bb, node) for (bb, idx, kind, node) in fn.uses_of(l) if bb in body and kind != 'store' and
+                     not any(node is st for (_, st) in data_stores)]
+            if reads:
+                bb, node = reads[0]
+                bad = bad or (fn.where(node), '%s is assigned a value computed from the current security and read inside the loop: '
+                              'it carries one security\'s outcome into the processing of the next' % fn.describe_local(l).split(':')[0])
+        if bad:
+            rep.violation('R8d', base, where=bad[0], fn=fn.name, detail=bad[1])
+        else:
+            rep.ok('R8d', base, where=nc.where(), fn=fn.name,
+                   detail='%d variable(s) written in the loop outlive an iteration; none is consulted by a later iteration' % n_state, trivial=(n_state == 0))
